@@ -81,7 +81,7 @@ theorem whole_input_parse_strings_are_the_inplace_decodings (t : Buf) (tr : Json
       ∀ n (hn : n < is.length) (hd : n < ds.length), StrBlock.bytes memF is[n] (is[n] + ds[n].1.length) = ds[n].1 := by
   have hdoc := DomP.fromSlicePadded_tree t tr h
   unfold docTree at hdoc
-  cases ht : tree false (fuelFor t) t (skipWs t 0) with
+  cases ht : tree false (Spec.fuelFor t) t (skipWs t 0) with
   | none => rw [ht] at hdoc; cases hdoc
   | some p =>
     obtain ⟨j, e⟩ := p
@@ -90,7 +90,7 @@ theorem whole_input_parse_strings_are_the_inplace_decodings (t : Buf) (tr : Json
     split at hdoc
     · have hj : j = tr := Option.some.inj hdoc
       subst hj
-      obtain ⟨is, ds, hc, hs, _⟩ := (ChainDoc.tree_chain false t (fuelFor t)).1 _ j e ht
+      obtain ⟨is, ds, hc, hs, _⟩ := (ChainDoc.tree_chain false t (Spec.fuelFor t)).1 _ j e ht
       have hc0 := ChainDoc.chain_weaken false t _ 0 is ds hc (Nat.zero_le _)
       obtain ⟨memF, h1, _, _, h4⟩ := StrIn.runMany_spec false t is ds 0 (StrIn.pad t) hc0 rfl (fun _ _ => rfl)
       exact ⟨is, ds, memF, h1, hs, ChainDoc.chain_length false t is ds 0 hc0, h4⟩
